@@ -19,11 +19,16 @@ RULE = ('a case = generated prefix history + designated transaction + interrupti
         'evaluations = interruption points executed; oracle: battery(live) and battery(reopened copy of the files) '
         'equal the model before the transaction, commit lock free, follow-up commits and survives reopen; '
         'non-trivial = interruption after >= 1 store (or inside vote) with >= 1 earlier committed transaction; '
+        'a fifth of the cases are CONNECTION-level programs (vlib/objprog, as C11/C12, also explicit transaction mode): changes, '
+        'optionally partly saved by a savepoint, then a commit interrupted by a participant failing in tpc_begin/commit/'
+        'tpc_vote, by a conflict (also on an object saved by the savepoint) or by an unpicklable object, then the connection '
+        'is used again; oracle: every committed object reads its last committed state, nothing was stored, new objects are '
+        'disowned, the next commit stores exactly what the model says; non-trivial = a successful commit after a failed one; '
         'distinct by (program hash, interruption point)')
 ASSUMPTIONS = ['faults inside tpc_finish (after the status flip began) are judged by the C01 outcome: the storage '
                'reopens to the state before or after the whole transaction',
                'commit-lock freedom is probed by a non-blocking acquire of the storage\'s _commit_lock']
-BUDGET = {'quick': {'examples': 2500, 'workers': 8},
+BUDGET = {'quick': {'examples': 4000, 'workers': 8},
           'thorough': {'examples': 40000, 'workers': 16}}
 
 MODES = ['abort', 'fault', 'fault', 'fault', 'quota', 'wrongtxn', 'meta']
@@ -52,7 +57,69 @@ def strategy(tier):
             'bigfield': st.integers(0, 2),
             'post': programs.txn_strategy(victim_allow - {'stale'}),
         })
-    return st.sampled_from(['fs', 'fs', 'fs', 'mapping', 'demo', 'demo-fs']).flatmap(build)
+    raw = st.sampled_from(['fs', 'fs', 'fs', 'mapping', 'demo', 'demo-fs']).flatmap(build)
+    return st.integers(0, 99).flatmap(lambda r: conn_strategy(tier) if r < 20 else raw)
+
+
+def conn_strategy(tier):
+    """the connection's half of the statement ('connection reverts or disowns the objects of a failed commit',
+    'a failing vote of another participant', conflicts): object-level programs with savepoints and commits that
+    fail at every phase, judged by the object-level model of vlib/objprog (shared with C11/C12)"""
+    from vlib import objprog
+    n = 18 if tier == 'quick' else 35
+    free = objprog.op_strategy({'fail', 'savepoint'})
+    k = st.integers(0, 7)
+    slot = st.sampled_from(objprog.SLOTS)
+    mod = st.one_of(st.tuples(st.just('set'), k, slot, st.integers(1, 9)), st.tuples(st.just('set'), k, slot, st.integers(1, 9)),
+                    st.tuples(st.just('new'), st.sampled_from(objprog.KINDS), k, slot, st.sampled_from(['r', 'rl', 'add+r']))).map(list)
+    fail = st.one_of(st.tuples(st.just('fail_commit'), st.sampled_from(['tpc_begin', 'commit', 'tpc_vote']), st.sampled_from(['before', 'after'])),
+                     st.tuples(st.just('conflict_commit'), k), st.tuples(st.just('conflict_commit'), k),
+                     st.tuples(st.just('pickle_fail_commit'), k)).map(list)
+    # the shape the statement is about: changes (optionally partly saved by a savepoint), a commit that is
+    # interrupted, then the connection is used again
+    phased = st.tuples(st.lists(free, max_size=3), st.lists(mod, min_size=1, max_size=4), st.booleans(),
+                       st.lists(mod, max_size=2), fail, st.lists(free, min_size=1, max_size=6)).map(
+        lambda t: t[0] + t[1] + ([['savepoint']] + t[3] if t[2] else []) + [t[4], ['read', 0], ['read', 1], ['read', 2], ['read', 3]]
+        + t[5] + [['commit']])
+    return st.fixed_dictionaries({'mode': st.just('conn'),
+                                  'kind': st.sampled_from(['fs', 'fs', 'mapping', 'demo']),
+                                  'explicit': st.sampled_from([False, False, True]),
+                                  'ops': st.one_of(st.lists(free, min_size=3, max_size=n), phased, phased)})
+
+
+def execute_conn(case):
+    from checks.c11_objects import storage_factory
+    from vlib import objprog
+    out = Outcome()
+    out.evals = 0
+    clock.install()
+    locks.install()
+    clock.reset()
+    d = newdir()
+    # (lenient: what a NEW object that a savepoint had already saved looks like after the failed commit is not
+    # judged - it is disowned as a ghost; C11 judges new objects of programs without savepoints strictly)
+    w = objprog.World(storage_factory(case['kind'], d), out, PROPERTY, lenient_disowned=True,
+                      explicit=case.get('explicit', False))
+    failed = False
+    nt = False
+    try:
+        for op in (['new', 'N', 0, 's0', 'r'], ['new', 'M', 0, 's0', 'r'], ['new', 'L', 1, 's1', 'rl'], ['commit']):
+            w.step(op)
+        for op in case['ops']:
+            w.step(op)
+            clock.CLOCK.advance(0.25)
+            out.evals += 1
+            if out.failures:
+                break
+            if any(x.startswith('failed-commit') or x == 'conflict' for x in w.labels):
+                failed = True
+            if failed and op[0] == 'commit' and ('commit' in w.labels or 'commit-with-new' in w.labels):
+                nt = True
+    finally:
+        w.close()
+    out.label('connection-level', 'conn-' + case['kind'], *['conn-' + x for x in w.labels])
+    out.nontrivial = nt
+    return out
 
 
 def commit_lock_free(storage):
@@ -158,6 +225,8 @@ def execute(case):
 
 
 def _execute(case):
+    if case.get('mode') == 'conn':
+        return execute_conn(case)
     out = Outcome()
     out.evals = 0
     clock.install()
